@@ -294,9 +294,39 @@ pub fn suffix_pool() -> Vec<PoolName> {
         .collect()
 }
 
+/// names that contain a separator next to names that are their parts: any scheme that joins path
+/// segments with a separator can confuse `a` / `b.c` with `a.b` / `c`
+pub fn separator_sets() -> Vec<Vec<PoolName>> {
+    let mut out = Vec::new();
+    for sep in [".", "-", "_", ":"] {
+        let names: Vec<String> = vec!["a".into(), "b".into(), "c".into(), format!("a{}b", sep), format!("b{}c", sep)];
+        // leak: the pool type holds &'static str; a handful of tiny strings per run
+        let leaked: Vec<PoolName> = names
+            .into_iter()
+            .map(|n| PoolName { name: Box::leak(n.into_boxed_str()), category: "separator-path", element: true })
+            .collect();
+        out.push(leaked);
+    }
+    out
+}
+
+/// case variants and digit suffixes of one name: identifier numbering (`foo`, `foo_1`, `foo2` ...)
+pub fn numbering_pool() -> Vec<PoolName> {
+    ["foo", "Foo", "FOO", "foo2", "Foo2", "foo_2", "foo1", "foo_1"]
+        .iter()
+        .map(|n| PoolName { name: n, category: "numbering", element: true })
+        .collect()
+}
+
 pub fn run(ctx: &Ctx) {
     ctx.set("exhaustive", json!(true));
     let pool = pool(&[]);
+    for set in separator_sets() {
+        sweep(ctx, &format!("separator-path names {:?}, 4-subsets, <=4 nodes, undecorated", set.iter().map(|p| p.name).collect::<Vec<_>>()), &set, 4,
+              &TreeParams { min_nodes: 3, max_nodes: 4, max_decorated: 0, root_from_subset: false, shard: (0, 1) }, true);
+    }
+    sweep(ctx, "numbering pool, 4-subsets, <=4 nodes, <=1 decorated", &numbering_pool(), 4,
+          &TreeParams { min_nodes: 2, max_nodes: 4, max_decorated: ctx.tier.pick(0, 1), root_from_subset: false, shard: (0, 1) }, false);
     let concat: Vec<PoolName> = ADV.iter().filter(|p| p.category == "concat").cloned().collect();
     sweep(ctx, "concatenation pool, 3-subsets, <=3 nodes, <=1 decorated, root named from the subset", &concat, 3,
           &TreeParams { min_nodes: 1, max_nodes: 3, max_decorated: 1, root_from_subset: true, shard: (0, 1) }, true);
